@@ -23,6 +23,7 @@ def run(ctx):
                             'versions 2.0/3.0) through dump+parse in JSON mode with text, bytes and pre-decoded input, singly and as arrays of 0-3 grids; '
                             'distinct by dumped text; non-trivial when the grid holds a non-null value')
     gs = [codec.gen_grid(rng, rng.choice(['2.0', '3.0', '3.0']), depth=rng.choice([0, 1, 2, 3])) for _ in range(n)]
+    gs += codec.zone_sweep_grids(rng)        # one date-time in every mapped zone
     texts = []
     for g in gs:
         try:
